@@ -263,6 +263,9 @@ def check(pid, tier):
     if tier == "thorough":
         cfgs += random_cfgs(4000, rng)
         ev.cov["exhaustive"] = False
+    # the same configurations on other time grids: one tick = 1.5 s / 1 microsecond instead of one day
+    sub = rng.sample(cfgs, min(len(cfgs), 600 if tier == "quick" else 6000))
+    cfgs = cfgs + [dict(c, tick=[3, 2] if k % 2 else [1, 1000000]) for k, c in enumerate(sub)]
     traces = run_configs([(c, None) for c in cfgs])
     herr = [t for t in traces if "harness_error" in t]
     if herr:
